@@ -8,19 +8,19 @@ Model: `Slock.Value.processFrame` (= `ProcessParseLockData` + `LockManager.Proce
 Spec: `Slock.Value.specApply` on `Val = none | bytes | array` (a number is its 8-byte little-endian image, `Val.num`).
 `encode f` is the canonical frame `[len32 | op | flag | (proplen16 props)? | payload]` of `f : Frm`; `f.WF` says the op code is
 < 64 (stage CURRENT), the property flag matches the presence of a header and the header is < 64 KiB. `CellWF` = no cell, the UNSET
-marker, or a canonical image with a correct length prefix (array-flagged images hold an exact list of NON-EMPTY elements).
+marker, or a canonical image with a correct length prefix (array-flagged images hold an exact list of elements, each
+shorter than 2^32 bytes — zero-length elements are ordinary elements since e6b8126).
 `gate cx (mkCmd f) = true` = the stage / first-or-last gate lets the frame through.
 
 For every op, every WF cell, every WF frame:  `processFrame cx cur (encode f) = .ok cur'` (it always returns:
 `processFrame_returns`)  →  `CellWF cur' ∧ absCell cur' = specApply (absCell cur) (opOf f)`.
 Remaining hypotheses are typing conditions of the register (INCR/APPEND/SHIFT act on scalars, SET-array payloads are element
-lists) and the two recorded findings: zero-length array elements (`pop_zero_length_element_counterexample`) and PIPELINE
-with more than one sub-frame (`pipeline_not_sequential_counterexample`).
+lists) and the recorded finding: PIPELINE with more than one sub-frame (`pipeline_not_sequential_counterexample`).
 -/
 namespace Slock.C15V
 open Slock.Value
 
-/-- SET: any payload, any flags / property header (array-flagged payloads must be exact non-empty element lists). -/
+/-- SET: any payload, any flags / property header (array-flagged payloads must be exact element lists). -/
 theorem set_refines (cx : Ctx) (cur : Option Cell) (f : Frm) (hcur : CellWF cur) (hf : f.WF) (hop : f.op = SET)
     (ha : f.ArrOK) (hg : gate cx (mkCmd f) = true) (cur' : Option Cell) (h : processFrame cx cur (encode f) = .ok cur') :
     CellWF cur' ∧ absCell cur' = specApply (absCell cur) (.set (hasFlag f.flag fARRAY) f.payload) :=
@@ -52,10 +52,10 @@ theorem shift_refines (cx : Ctx) (cur : Option Cell) (f : Frm) (hcur : CellWF cu
     CellWF cur' ∧ absCell cur' = specApply (absCell cur) (.shift f.count) :=
   Slock.Value.shift_refines cx cur f hcur hf hop hna hg cur' h
 
-/-- PUSH of a non-empty element onto anything (a non-array value is replaced by a one-element array).
-    Excluded: the zero-length element (`pop_zero_length_element_counterexample`, recorded finding). -/
+/-- PUSH of any element — the zero-length one included (repaired, e6b8126) — onto anything (a non-array value is replaced
+    by a one-element array). The bound is the 32-bit element length field. -/
 theorem push_refines (cx : Ctx) (cur : Option Cell) (f : Frm) (hcur : CellWF cur) (hf : f.WF) (hop : f.op = PUSH)
-    (hb : 0 < f.payload.length ∧ f.payload.length < 2 ^ 32)
+    (hb : f.payload.length < 2 ^ 32)
     (hg : gate cx (mkCmd f) = true) (cur' : Option Cell) (h : processFrame cx cur (encode f) = .ok cur') :
     CellWF cur' ∧ absCell cur' = specApply (absCell cur) (.push f.payload) :=
   Slock.Value.push_refines cx cur f hcur hf hop hb hg cur' h
@@ -119,18 +119,12 @@ theorem pipeline_empty (cx : Ctx) (cur : Option Cell) (fl : UInt8) (hfl : hasFla
   simp only [bind, Except.bind, pure, Except.pure, okVal, specRun, List.foldl_nil, absCell_pipeFinish]
 
 /-! ### recorded findings: counterexamples on the code (executable model, `decide`; replayed on the real code by the
-harness monitors `value-mismatch:PIPELINE` and `value-mismatch:POP-zero-length-element`) -/
+harness monitor `value-mismatch:PIPELINE`) -/
 
 /-- On value "x", PIPELINE[SET "a", APPEND "b"] leaves "xb"; the sequential interpreter says "ab". -/
 theorem pipeline_not_sequential_counterexample :
     okVal (runAll cx0 none [[3,0,0,0, 0,0, 0x78], [16,0,0,0, 6,0, 3,0,0,0,0,0,0x61, 3,0,0,0,3,0,0x62]]) = some (.bytes [0x78, 0x62])
     ∧ specRun .none [.set false [0x78], .set false [0x61], .append [0x62]] = .bytes [0x61, 0x62] := by
-  decide
-
-/-- PUSH "", PUSH "a", POP 1: the interpreter says ["a"], the code leaves [] (POP skips — and drops — zero-length elements). -/
-theorem pop_zero_length_element_counterexample :
-    okVal (runAll cx0 none [[2,0,0,0, 7,0], [3,0,0,0, 7,0, 0x61], [6,0,0,0, 8,1, 1,0,0,0]]) = some (.array [])
-    ∧ specRun .none [.push [], .push [0x61], .pop 1] = .array [[0x61]] := by
   decide
 
 /-! ### the inputs of the repaired defects now agree with the interpreter (regression witnesses, `decide`) -/
@@ -139,6 +133,15 @@ theorem pop_zero_length_element_counterexample :
 theorem shift_beyond_length_repaired :
     okVal (runAll cx0 none [[5,0,0,0, 0,0, 0x61,0x62,0x63], [6,0,0,0, 4,1, 4,0,0,0]]) = some (.bytes [])
     ∧ specRun .none [.set false [0x61,0x62,0x63], .shift 4] = .bytes [] := by
+  decide
+
+/-- PUSH "", PUSH "a", POP 1 leaves ["a"], and PUSH "a", PUSH "" keeps the trailing empty element (was: [] — POP skipped and
+    dropped zero-length elements and never read a trailing one) — commit e6b8126. -/
+theorem pop_zero_length_element_repaired :
+    okVal (runAll cx0 none [[2,0,0,0, 7,0], [3,0,0,0, 7,0, 0x61], [6,0,0,0, 8,1, 1,0,0,0]]) = some (.array [[0x61]])
+    ∧ specRun .none [.push [], .push [0x61], .pop 1] = .array [[0x61]]
+    ∧ okVal (runAll cx0 none [[3,0,0,0, 7,0, 0x61], [2,0,0,0, 7,0]]) = some (.array [[0x61], []])
+    ∧ okVal (runAll cx0 none [[3,0,0,0, 7,0, 0x61], [2,0,0,0, 7,0], [6,0,0,0, 8,1, 1,0,0,0]]) = some (.array [[]]) := by
   decide
 
 /-- INCR with a 1-byte operand on a cell with a property header: value 5+3 and a correct length prefix (was: prefix 0)
